@@ -148,21 +148,25 @@ class Check:
         cands = []
         for r in results:
             cands += r.get("violations", [])
-        # one per (op,type,target) is enough; cap the confirmations
-        seen = set()
+        # group by (op,type): confirm up to two targets per group, list the others as "also_failing_on"
+        groups = {}
         for rec in cands:
-            key = (rec.get("op"), rec.get("type"), rec.get("target"))
-            if key in seen:
-                continue
-            seen.add(key)
-            if len(self.violations) >= 40:
-                break
-            rec.setdefault("property", self.prop)
-            ok, fails, out = self.confirm(driver, rec, extra)
-            if ok:
-                self.violations.append((rec, self.save_violation(rec)))
-            else:
-                self.flaky.append({"case": rec, "replay_failures": fails})
+            groups.setdefault((rec.get("op"), rec.get("type")), []).append(rec)
+        for key in sorted(groups, key=lambda k: (str(k[0]), str(k[1]))):
+            recs = groups[key]
+            tg = sorted({r.get("target") for r in recs})
+            done = 0
+            for rec in recs:
+                if done >= 2 or len(self.violations) >= 80:
+                    break
+                rec.setdefault("property", self.prop)
+                rec["also_failing_on"] = tg
+                ok, fails, out = self.confirm(driver, rec, extra)
+                if ok:
+                    self.violations.append((rec, self.save_violation(rec)))
+                    done += 1
+                else:
+                    self.flaky.append({"case": rec, "replay_failures": fails})
 
     def replay_saved(self, driver, extra=()):
         """regression tier: every file under replay/<prop>/ must pass"""
@@ -267,8 +271,8 @@ class Check:
             print(l)
         for rec, path in self.violations:
             print("VIOLATION property=%s replay=%s" % (self.prop, path))
-            log("  %s %s %s lane=%s operands=%s expected=%s got=%s : %s" % (rec.get("op"), rec.get("type"), rec.get("target"), rec.get("lane"),
-                                                                          rec.get("lane_operands"), rec.get("expected"), rec.get("got"), rec.get("why")))
+            log("  %s %s %s lane=%s operands=%s expected=%s got=%s : %s [targets: %s]" % (rec.get("op"), rec.get("type"), rec.get("target"), rec.get("lane"),
+                                                                          rec.get("lane_operands"), rec.get("expected"), rec.get("got"), rec.get("why"), ",".join(rec.get("also_failing_on", []))))
         sys.stdout.flush()
         return 1 if self.violations else 0
 
